@@ -167,6 +167,7 @@ pub fn run(out: &mut impl Write, seed: u64, cases: usize, _replay: &str, burst: 
         let mut clients: Vec<Client> = (0..nclients).map(|_| Client { conn: WsConn::connect(server.port) }).collect();
         let pids: Vec<[u8; 20]> = (0..64u8).map(|i| id20(0x2d, i)).collect();
         let mut forwarded: Vec<(String, String, usize, String)> = Vec::new(); // hash, from pid, to client, offer id
+        let mut announced: std::collections::HashMap<(usize, [u8; 20]), [u8; 20]> = std::collections::HashMap::new();
         let mut next_oid: u8 = 1;
         let nops = if burst_case { 8 } else { 10 + r.below(10) as usize };
         for opi in 0..nops {
@@ -246,7 +247,32 @@ pub fn run(out: &mut impl Write, seed: u64, cases: usize, _replay: &str, burst: 
                 let text = announce_json(&hash, &pid, &event, left, &offers, &answer);
                 let line = crate::wsstore::Op::Ann { fam: 4, consumer: 0, slot: ci as u32, allowed: true, now: 0, hash, pid, event, left, offers, answer }.text();
                 if !clients[ci].conn.as_mut().unwrap().send_text(&text, 15000) { clients[ci].conn = None; }
-                let got = fenced(&mut clients, ci, &hash, 0);
+                // a second peer id for a torrent this connection has announced: the tracker answers with an error and
+                // ends the connection.  No fence on this connection then - a request left unread in the tracker's
+                // socket when it closes turns the close into a reset, which discards the error reply on our side -
+                // just read until the connection ends.
+                let second_pid = announced.get(&(ci, hash)).map(|p| *p != pid).unwrap_or(false);
+                announced.entry((ci, hash)).or_insert(pid);
+                let mut got = Vec::new();
+                if second_pid {
+                    if let Some(conn) = clients[ci].conn.as_mut() {
+                        let t1 = std::time::Instant::now();
+                        let patience = crate::net::patience();
+                        loop {
+                            match conn.recv_text(Duration::from_millis(50)) {
+                                Ok(Some(t)) => got.push(msg_text(ci, &t)),
+                                Ok(None) => { if t1.elapsed() > patience { crate::net::note_timeout(); break; } }
+                                Err(_) => break,
+                            }
+                        }
+                    }
+                    clients[ci].conn = None;
+                    let alive = (0..clients.len()).find(|i| clients[*i].conn.is_some());
+                    if let Some(alive) = alive { got.extend(fenced(&mut clients, alive, &hash, 0)); }
+                    got.sort();
+                } else {
+                    got = fenced(&mut clients, ci, &hash, 0);
+                }
                 for m in &got {
                     let p: Vec<&str> = m.split(':').collect();
                     if p.len() == 6 && p[0] == "O" {
